@@ -46,9 +46,12 @@ SignFails(e) ==
              THEN {"signer-input-or-stored-signature-not-positional"} ELSE {})
        \cup (IF s.res = "ok" /\ mm.res # "ok" THEN {"fully-signed-message-not-serialisable"} ELSE {})
 
+FirstVerifyFails(e) ==
+  LET k == IF e.dec THEN 5 ELSE 4 IN
+  IF e.n > 0 /\ e.obs[2].res = "ok" /\ e.obs[k].op = "verify" /\ e.obs[k].res # "ok" THEN {"freshly-signed-message-does-not-verify"} ELSE {}
 Fails(e) ==
   CASE e.flow = "baddecode" -> IF e.obs[1].res = "ok" THEN {"decoded-message-with-no-or-empty-signature"} ELSE {}
-    [] e.flow = "verify" -> SignFails(e) \cup (IF e.n = 0 THEN (IF e.obs[Len(e.obs)].res = "ok" THEN {"verifies-without-signatures"} ELSE {}) ELSE VerifyFails(e))
+    [] e.flow = "verify" -> SignFails(e) \cup FirstVerifyFails(e) \cup (IF e.n = 0 THEN (IF e.obs[Len(e.obs)].res = "ok" THEN {"verifies-without-signatures"} ELSE {}) ELSE VerifyFails(e))
 
 TInit == l = 1 /\ KitInit
 TNext == /\ l <= Len(Tr) /\ l' = l + 1
